@@ -167,7 +167,71 @@ def witness_from_model(model, assertions, P):
     return params, pins
 
 
+def raised_by_library(exc):
+    """True when the exception comes out of processscheduler (or of a library it called) rather than out of the
+    harness itself: walking the traceback outwards from the innermost frame, the first frame that belongs to
+    either /verif or processscheduler decides."""
+    tb = exc.__traceback__
+    frames = []
+    while tb is not None:
+        frames.append(tb.tb_frame.f_code.co_filename)
+        tb = tb.tb_next
+    for fn in reversed(frames):
+        if "/processscheduler/" in fn:
+            return True
+        if fn.startswith(VERIF) or "/symx/" in fn or "/checks/" in fn:
+            return False
+    return False
+
+
+def library_failure(fn):
+    """Decorator for concrete-layer obligations: a valid use of the public API that makes the library raise
+    is a counterexample (replayed like any other), a failure inside the harness stays an error."""
+    def wrapped(ctx, path):
+        try:
+            return fn(ctx, path)
+        except Exception as e:
+            if raised_by_library(e):
+                return {"status": "sat", "queries": 1, "witness": {"params": {}, "pins": {}, "what": f"the library raised {type(e).__name__}: {str(e)[:200]}"}}
+            raise
+    return wrapped
+
+
+def confirm_library_failure(replayer):
+    """Decorator for the replay functions of concrete-layer obligations: if the library raises again on the
+    same valid use, the violation is confirmed."""
+    def wrapped(desc):
+        try:
+            return replayer(desc)
+        except Exception as e:
+            if raised_by_library(e):
+                print(f"CONFIRMED: the library raised {type(e).__name__}: {str(e)[:200]}")
+                return 1
+            raise
+    return wrapped
+
+
+def auto_named(ctx):
+    """uid-named observables every problem has: indicator variables (Indicator_<ClassName>_<uid> for the
+    built-in indicators) and the applied flags of optional constraints, aliased by declaration position so
+    that a replay can pin them"""
+    pb = getattr(ctx, "problem", None)
+    if pb is None:
+        return
+    named = dict(getattr(ctx, "named", None) or {})
+    try:
+        for i, ind in enumerate(pb.indicators.values()):
+            named.setdefault(f"__indicator_{i}", ind._indicator_variable)
+        for i, c in enumerate(pb.constraints.values()):
+            if z3.is_expr(getattr(c, "_applied", None)):
+                named.setdefault(f"__applied_{i}", c._applied)
+    except Exception:
+        return
+    ctx.named = named
+
+
 def alias_values(model, ctx):
+    auto_named(ctx)
     """Values of observables whose z3 names contain run-specific uids (applied flags, selection
     Booleans): recorded under a stable alias chosen by the shape (ctx.named)."""
     out = {}
@@ -323,6 +387,7 @@ def replay_schedule(desc):
                 pins.append(z3.Bool(n) == z3.BoolVal(v))
             elif isinstance(v, int):
                 pins.append(z3.Int(n) == v)
+        auto_named(ctx)
         named = {a: t for a, t in (getattr(ctx, "named", None) or {}).items() if z3.is_expr(t)}
         pins += pin_expr(named, w.get("alias_pins") or {})
         early = getattr(ctx, "early_solver", None)
